@@ -129,7 +129,11 @@ func runOne(r *ev.Run, h int, rng *rand.Rand, o gen.Opts, so StepOpts, minOps, m
 		}
 	}
 	shape := t.Shape() + "|" + opShape(s.Log)
-	r.Case(shape, s.Stats["walk.undo"] > 0 && (inj == nil || s.Stats["op.attempt"] > 0))
+	injected := 0
+	for _, k := range []string{"attempt", "family", "failplay", "failwalk", "failconfirm", "faildotx", "fault", "crash"} {
+		injected += s.Stats["op."+k]
+	}
+	r.Case(shape, s.Stats["walk.undo"] > 0 && (inj == nil || injected > 0))
 	for k, v := range s.Stats {
 		r.Count(k, v)
 	}
